@@ -359,21 +359,181 @@ def thread_flow_obligations(P, G):
     return obs
 
 
-def fft_wrapper_obligations(P):
+LOSSLESS_ATTRS = {"char", "str", "name", "descr", "shape", "dtype"}  # an attribute that identifies (or is part of hashing) the whole object it is read from
+LOSSY_ATTRS = {"kind", "itemsize", "ndim", "size", "nbytes", "alignment", "real", "imag", "T", "flags"}
+
+
+def _paths(expr):
+    """access paths ('name', 'attr', ...) read by an expression; method calls contribute their receiver"""
+    out = set()
+
+    def chain(n):
+        parts = []
+        while isinstance(n, ast.Attribute):
+            parts.append(n.attr)
+            n = n.value
+        if isinstance(n, ast.Name):
+            return (n.id,) + tuple(reversed(parts))
+        return None
+
+    def walk(n):
+        if isinstance(n, ast.Call):
+            f = n.func
+            if isinstance(f, ast.Attribute):
+                c = chain(f.value)
+                if c is not None:
+                    out.add(c)
+                else:
+                    walk(f.value)
+            for a in n.args:
+                walk(a)
+            for k in n.keywords:
+                walk(k.value)
+            return
+        if isinstance(n, (ast.Attribute, ast.Name)):
+            c = chain(n)
+            if c is not None:
+                out.add(c)
+                return
+        for ch in ast.iter_child_nodes(n):
+            walk(ch)
+
+    walk(expr)
+    return out
+
+
+def instance_memo_obligations(P, mod, cls, site):
+    """Instance state of the FFT wrapper.  Attributes set once in __init__ from the constructor's arguments are per-instance
+    constants.  A dict attribute is accepted as state only as a completely keyed memo: everything the stored value is built
+    from must be determined by the key (a whole object, or one of its identifying attributes such as dtype.char; a lossy
+    attribute such as dtype.kind does not determine it).  Any other instance state read by the transforms is reported."""
+    import builtins
+
     obs = []
+    init = next((n for n in cls.body if isinstance(n, ast.FunctionDef) and n.name == "__init__"), None)
+    consts, memos, other = set(), set(), set()
+    if init is not None:
+        for n in ast.walk(init):
+            if isinstance(n, ast.Assign):
+                for t in n.targets:
+                    if isinstance(t, ast.Attribute) and isinstance(t.value, ast.Name) and t.value.id == "self":
+                        v = n.value
+                        if isinstance(v, ast.Dict) and not v.keys or (isinstance(v, ast.Call) and (dotted_name(v.func) or "").split(".")[-1] in ("dict", "OrderedDict")):
+                            memos.add(t.attr)
+                        elif isinstance(v, ast.Call) and (dotted_name(v.func) or "").split(".")[-1] in ("Lock", "RLock"):
+                            consts.add(t.attr)
+                        else:
+                            consts.add(t.attr)
+    methods = [n for n in cls.body if isinstance(n, ast.FunctionDef) and n.name != "__init__"]
+    # attributes rebound outside __init__ are state, not constants
+    for fn in methods:
+        for n in ast.walk(fn):
+            if isinstance(n, (ast.Assign, ast.AugAssign)):
+                tg = n.targets if isinstance(n, ast.Assign) else [n.target]
+                for t in tg:
+                    if isinstance(t, ast.Attribute) and isinstance(t.value, ast.Name) and t.value.id == "self":
+                        consts.discard(t.attr)
+                        other.add(t.attr)
+    ignore = set(dir(builtins)) | set(mod.imports) | set(mod.functions) | set(mod.classes) | set(mod.assigns)
+    transform_methods = set()
+    work = [n.name for n in methods if n.name in ("fft2", "ifft2")]
+    by_name = {n.name: n for n in methods}
+    while work:
+        nm = work.pop()
+        if nm in transform_methods or nm not in by_name:
+            continue
+        transform_methods.add(nm)
+        for n in ast.walk(by_name[nm]):
+            if isinstance(n, ast.Call) and isinstance(n.func, ast.Attribute) and isinstance(n.func.value, ast.Name) and n.func.value.id == "self":
+                work.append(n.func.attr)
+    for nm in sorted(transform_methods):
+        fn = by_name[nm]
+        msite = "%s.%s" % (site, nm)
+        reads = set()
+        for n in ast.walk(fn):
+            if isinstance(n, ast.Attribute) and isinstance(n.value, ast.Name) and n.value.id == "self" and n.attr not in by_name:
+                reads.add(n.attr)
+        bad = sorted(a for a in reads if a not in consts and a not in memos)
+        obs.append(req_ob("R-NOSTATE", msite, "the transform reads no instance state other than per-instance constants and completely keyed memos (which manager instance serves a call, and what it served before, cannot influence a value)", not bad,
+                          detail="reads %s" % ", ".join("self." + a for a in bad) if bad else None))
+        # keyed stores into the memo attributes
+        assigns = {}
+        for n in ast.walk(fn):
+            if isinstance(n, ast.Assign):
+                for t in n.targets:
+                    if isinstance(t, ast.Name):
+                        assigns.setdefault(t.id, []).append(n.value)
+                    elif isinstance(t, (ast.Tuple, ast.List)):
+                        for x in t.elts:
+                            if isinstance(x, ast.Name):
+                                assigns.setdefault(x.id, []).append(n.value)
+            if isinstance(n, (ast.With, ast.withitem)):
+                pass
+        params = {a.arg for a in fn.args.args + fn.args.kwonlyargs}
+        for n in ast.walk(fn):
+            if not isinstance(n, ast.Assign):
+                continue
+            for t in n.targets:
+                if not (isinstance(t, ast.Subscript) and isinstance(t.value, ast.Attribute) and isinstance(t.value.value, ast.Name) and t.value.value.id == "self" and t.value.attr in memos):
+                    continue
+                kp = _paths(t.slice)
+                # key given by a local name: open it once (key = (a, b.c, d))
+                opened = set()
+                for p in list(kp):
+                    if len(p) == 1 and p[0] in assigns and p[0] not in params:
+                        kp.discard(p)
+                        for e in assigns[p[0]]:
+                            opened |= _paths(e)
+                kp |= opened
+                keyroots = {p[0] for p in kp}
+                # value dependences, locals opened down to parameters and key variables
+                deps, seen, todo = set(), set(), list(_paths(n.value))
+                while todo:
+                    p = todo.pop()
+                    if p in seen:
+                        continue
+                    seen.add(p)
+                    r = p[0]
+                    if r in ignore and r not in params and r not in assigns:
+                        continue
+                    if r == "self" or r in keyroots or r in params or r not in assigns:
+                        deps.add(p)
+                        continue
+                    for e in assigns[r]:
+                        todo.extend(_paths(e))
+                missing = []
+                for p in sorted(deps):
+                    r, suf = p[0], p[1:]
+                    if r == "self":
+                        if len(suf) >= 1 and (suf[0] in consts or suf[0] in by_name or suf[0] == t.value.attr):
+                            continue
+                        missing.append(".".join(p))
+                        continue
+                    ks = [k[1:] for k in kp if k[0] == r]
+                    covered = False
+                    for k in ks:
+                        if suf[: len(k)] == k:  # the key holds the object itself or an ancestor of what is used
+                            covered = True
+                        elif k[: len(suf)] == suf and len(k) == len(suf) + 1 and k[-1] in LOSSLESS_ATTRS:
+                            covered = True  # the key holds an identifying attribute of the object used
+                    if not covered:
+                        missing.append(".".join(p) + (" (key has only %s)" % ", ".join(".".join((r,) + k) for k in ks) if ks else ""))
+                obs.append(req_ob("R-MEMO", msite, "the memo self.%s is completely keyed: the stored value depends only on what the key determines" % t.value.attr, not missing,
+                                  detail="value also depends on %s" % "; ".join(missing) if missing else None, key={"state": t.value.attr}))
+    return obs
+
+
+def fft_wrapper_obligations(P):
     m = P.module("bldfm.fft_manager")
     c = m.classes.get("FFTManager")
     site = "src/bldfm/fft_manager.py::FFTManager"
     if c is None:
         return [req_ob("R-NOSTATE", site, "FFTManager exists", None)]
+    obs = []
     for name in ("fft2", "ifft2"):
-        fn = next((n for n in c.body if isinstance(n, ast.FunctionDef) and n.name == name), None)
-        if fn is None:
+        if not any(isinstance(n, ast.FunctionDef) and n.name == name for n in c.body):
             obs.append(req_ob("R-NOSTATE", site + "." + name, "transform method exists", None))
-            continue
-        uses_self = [x for x in ast.walk(fn) if isinstance(x, ast.Attribute) and isinstance(x.value, ast.Name) and x.value.id == "self"]
-        obs.append(req_ob("R-NOSTATE", site + "." + name, "the transform reads no instance state (which manager instance serves a call cannot influence a value)", not uses_self,
-                          detail="; ".join(ast.unparse(x) for x in uses_self[:3]) or None))
+    obs.extend(instance_memo_obligations(P, m, c, site))
     return obs
 
 
@@ -384,6 +544,9 @@ def purity_runs(P):
     for fp in (False, True):
         S, res = SA.run(fp, False, "generic")
         rets = [r for r in res if r.kind == "return"]
+        if rets and all(any(d[0].startswith("unknown test") for d in r.path) for r in rets):
+            raise AnalysisError("every returning path of the solver rests on a test that is not modelled (footprint=%s)" % fp)
+        rets = [r for r in rets if not any(d[0].startswith("unknown test") for d in r.path)]
         th = alg.sym("bldfm.config.NUM_THREADS") - ONE
         groups = {}
         for r in rets:
@@ -408,7 +571,7 @@ def purity_runs(P):
         # precision
         S2, res2 = SA.run(fp, False, "generic", precision="single")
         r1 = [RS.PathView(S, r) for r in rets]
-        r2 = [RS.PathView(S2, r) for r in res2 if r.kind == "return"]
+        r2 = [RS.PathView(S2, r) for r in res2 if r.kind == "return" and not any(d[0].startswith("unknown test") for d in r.path)]
         site = "src/bldfm/solver.py::steady_state_transport_solver::precision (footprint=%s)" % fp
         obs.append(req_ob("R-PREC", site, "both precisions have the same set of paths", len(r1) == len(r2)))
         narrow = {}
